@@ -2,10 +2,12 @@ package c06
 
 import (
 	"fmt"
+	"math"
 	"reflect"
 	"regexp"
 	"runtime/debug"
 	"sort"
+	"strconv"
 	"strings"
 
 	"github.com/scigolib/hdf5"
@@ -815,6 +817,45 @@ func (c *cmp) compareDataset(n *Node, ds *hdf5.Dataset, path string) {
 			}
 		}
 	}
+	// ReadHyperslab with the selection of a SUBSET dump
+	if sel := src.Sel; sel != nil && sel.Data != nil && sel.Data.Understood && (t.Kind == "int" || t.Kind == "float") {
+		r := len(sel.Start)
+		if r > 0 && len(sel.Count) == r && len(sel.Stride) == r && len(sel.Block) == r {
+			hs := &hdf5.HyperslabSelection{Start: sel.Start, Count: sel.Count, Stride: sel.Stride, Block: sel.Block}
+			n := int64(1)
+			for i := 0; i < r; i++ {
+				n *= int64(sel.Count[i] * sel.Block[i])
+			}
+			var got any
+			var err error
+			if p := safely(func() { got, err = ds.ReadHyperslab(hs) }); p != "" {
+				c.add(path, "data:ReadHyperslab", "panic", "ReadHyperslab(%+v): %s", *hs, p)
+			} else if err != nil {
+				c.res.skip("ReadHyperslab-error(allowed)")
+			} else if int64(len(sel.Data.Vals)) != n {
+				c.skipAt(path, "ReadHyperslab-ok-but-ddl-data-incomplete")
+			} else if flat, ok := flattenNumbers(got); !ok {
+				c.skipAt(path, "ReadHyperslab-result-type-not-understood")
+			} else {
+				want := append([]*Val{}, sel.Data.Vals...)
+				ordered := r <= 3 // h5dump prints subsets of rank > 3 in an order of its own: compare as multisets there
+				if !ordered {
+					sortNumeric(flat, want)
+				}
+				d, cerr := compareSeq(flat, want, t, c.ix)
+				if cerr != nil {
+					c.skipAt(path, "data-not-understood")
+				} else {
+					arrays++
+					c.res.compared++
+					c.res.skips["+values-compared:ReadHyperslab"]++
+					if d != nil {
+						c.add(path, "data:ReadHyperslab", d.kind, "ReadHyperslab(%+v): %s", *hs, d.detail)
+					}
+				}
+			}
+		}
+	}
 	// Info() must not panic (its wording is not compared)
 	if p := safely(func() { _, _ = ds.Info() }); p != "" {
 		c.add(path, "info", "panic", "Info(): %s", p)
@@ -870,4 +911,40 @@ func CompareFile(ddlName, fileName, h5path string, b *Block) *result {
 		c.add("/", "check", "panic", "while comparing: %s", p)
 	}
 	return res
+}
+
+// flattenNumbers turns the typed slice returned by ReadHyperslab into []any of float64 (what compareSeq takes for Read()).
+func flattenNumbers(v any) ([]any, bool) {
+	rv := reflect.ValueOf(v)
+	if rv.Kind() != reflect.Slice {
+		return nil, false
+	}
+	out := make([]any, rv.Len())
+	for i := range out {
+		e := rv.Index(i)
+		switch {
+		case e.CanInt():
+			out[i] = float64(e.Int())
+		case e.CanUint():
+			out[i] = float64(e.Uint())
+		case e.CanFloat():
+			out[i] = e.Float()
+		default:
+			return nil, false
+		}
+	}
+	return out, true
+}
+
+// sortNumeric sorts the reader's values and the reference tokens numerically (multiset comparison).
+func sortNumeric(got []any, want []*Val) {
+	sort.Slice(got, func(i, j int) bool { return got[i].(float64) < got[j].(float64) })
+	key := func(v *Val) float64 {
+		f, err := strconv.ParseFloat(strings.TrimSpace(v.S), 64)
+		if err != nil {
+			return math.Inf(1)
+		}
+		return f
+	}
+	sort.SliceStable(want, func(i, j int) bool { return key(want[i]) < key(want[j]) })
 }
